@@ -122,8 +122,13 @@ def pair_parsers(ck):
     for x, (f, node) in seen.items():
         a = dict(x[2])
         site, pos = a.get("siteId"), a.get("position")
-        ok = pos is not None and pos[0] == "idx" and pos[1][0] == "attr" and pos[1][2] == "positions" and site is not None \
-            and pos[2] == T.p_sub(site, C(1))
+        base_ok = pos is not None and pos[0] == "idx" and pos[1][0] == "attr" and pos[1][2] == "positions"
+        if pos is not None and pos[0] == "idx" and pos[1][0] == "v" and f is not aware:
+            # a free variable of the nested function that the enclosing parse() binds once to <map>.positions (hoisted attribute)
+            binds = [n0.value for n0 in ast.walk(aware.node) if isinstance(n0, ast.Assign) and len(n0.targets) == 1 and
+                     isinstance(n0.targets[0], ast.Name) and n0.targets[0].id == pos[1][1]]
+            base_ok = len(binds) == 1 and isinstance(binds[0], ast.Attribute) and binds[0].attr == "positions"
+        ok = base_ok and site is not None and pos[2] == T.p_sub(site, C(1))
         converted = pos is not None and pos[0] == "call" and pos[1] in ("int", "round", "float", "math.floor", "math.ceil", "math.trunc")
         ck.judge(ok, "C18.11", short(f) + ":position", where(f, node),
                  "the coordinate of a listed label is the map's position of that label number" +
